@@ -25,7 +25,7 @@ pub fn def() -> MonitorDef {
 
 fn plan(tier: Tier, _seed: u64) -> Plan {
 	Plan {
-		cases: tier.pick(4, 16),
+		cases: tier.pick(10, 24),
 		shards: 4,
 		case_timeout_s: 1800,
 		level: "exploration",
@@ -158,7 +158,7 @@ fn tar_header(name: &str, size: usize) -> [u8; 512] {
 }
 
 fn alphabet(l: &Layout) -> Vec<String> {
-	let mut a: Vec<String> = ["a.txt", "sub", "b.txt", "index.html", ".", "..", "", "%2e%2e", "%2E%2e", "..%2f", "%2f", "..;", "secret.txt", "secret2.txt", "secret3.txt", "sibling", "s.txt", "root", "outer", "c.css", "d.js", "..%5c", "%2e%2e%2f", "....", ".%2e", "current", "app.js", "releases", "v2"]
+	let mut a: Vec<String> = ["a.txt", "sub", "b.txt", "index.html", ".", "..", "", "%2e%2e", "%2E%2e", "..%2f", "%2f", "..;", "secret.txt", "secret2.txt", "secret3.txt", "sibling", "s.txt", "root", "outer", "c.css", "d.js", "..%5c", "%2e%2e%2f", "....", ".%2e", "current", "app.js", "releases", "v2", "..%2fsecret.txt", "..%2F..%2fsecret.txt", "%2e%2e%2fsecret.txt", "..%2findex.html", "sub%2f..%2f..%2fsecret.txt", "..%5csecret.txt", "a.txt%00", "%2e%2e%2fsibling%2fs.txt"]
 		.iter()
 		.map(|s| s.to_string())
 		.collect();
@@ -212,7 +212,22 @@ fn run_case(cx: &CaseCtx, rep: &mut Report) {
 		return;
 	}
 	let prefix = if prefixed { "/assets" } else { "" };
-	let static_arg = if prefixed { format!("[/assets]{}", root.display()) } else { root.display().to_string() };
+	// how the root is spelled on the command line: canonical absolute path; relative to the working directory with
+	// a parent segment in it; or through a symlink that lies deeper than its target
+	let spelling = if tar { 0 } else { (cx.case / 4) % 3 };
+	let root_arg = match spelling {
+		1 => "outer/sibling/../root".to_string(),
+		2 => {
+			let deep = dir.join("deep").join("a").join("b");
+			let _ = std::fs::create_dir_all(&deep);
+			#[cfg(unix)]
+			let _ = std::os::unix::fs::symlink(&root, deep.join("link"));
+			deep.join("link").display().to_string()
+		}
+		_ => root.display().to_string(),
+	};
+	rep.count(&format!("servers_root_spelling_{spelling}"), 1);
+	let static_arg = if prefixed { format!("[/assets]{root_arg}") } else { root_arg };
 	let args = vec![tiles.display().to_string(), "-s".to_string(), static_arg];
 	cx.progress(&format!("tar={tar} prefix={prefixed}"));
 	let mut server = match Server::start(&args, &dir) {
